@@ -9,7 +9,9 @@ use std::sync::OnceLock;
 pub struct Finding {
     pub property: String,
     /// Violation class (property/oracle/signature); a listed finding covers
-    /// exactly the violations whose class equals this string.
+    /// exactly the violations whose class equals this string. One `*` may
+    /// stand for a variable part (e.g. the before/after answer kinds of one
+    /// root cause); everything around it must match literally.
     pub class: String,
     /// "open" findings are reported as KNOWN-FINDING; "fixed" ones suppress
     /// nothing.
@@ -43,6 +45,13 @@ pub fn is_known(v: &Violation) -> bool {
     let class = v.class();
     FINDINGS
         .get()
-        .map(|l| l.iter().any(|f| f.status == "open" && f.class == class))
+        .map(|l| l.iter().any(|f| f.status == "open" && class_matches(&f.class, &class)))
         .unwrap_or(false)
+}
+
+fn class_matches(pattern: &str, class: &str) -> bool {
+    match pattern.split_once('*') {
+        None => pattern == class,
+        Some((pre, post)) => class.len() >= pre.len() + post.len() && class.starts_with(pre) && class.ends_with(post),
+    }
 }
